@@ -292,6 +292,17 @@ def reserved_domains(full=False):
         sufs.extend(case_variants(r))
         sufs.extend(one_edit(r))
     sufs += [b'com', b'net', b'org', b'co', b'exampl', b'tests', b'example.co', b'example.comm', b'xexample.com']
+    # every reserved name stretched and cut to every label length the length filter lets through (4, 5, 7, 9) and its neighbours:
+    # a compare length that is one short turns a whole-label match into a prefix match only for such labels
+    for r in RESERVED:
+        last = r.split(b'.')[-1]; head = r[:len(r) - len(last)]
+        for L in (3, 4, 5, 6, 7, 8, 9, 10):
+            if L > len(last): sufs.append(head + last + b'xyzwvutsrq'[:L - len(last)])
+            elif L < len(last): sufs.append(head + last[:L])
+            sufs.append(head + b'x' * max(L - len(last), 0) + last[-L:])            # same, on the left
+    for t in (b'com', b'net', b'org'):
+        sufs += [b'example.' + t + b'x', b'example.' + t[:2], b'examplex.' + t, b'exampl.' + t, b'xexampl.' + t, b'example.x' + t[1:]]
+    sufs = list(dict.fromkeys(sufs))
     pres = [b'']
     lens = range(1, 64) if full else list(range(1, 12)) + [62, 63]
     for n in lens:
